@@ -58,4 +58,11 @@ CANARIES = [
          edits=[('crates/anemo/src/types/mod.rs', 'ConnectionError::TimedOut => DisconnectReason::TimedOut,', 'ConnectionError::TimedOut => DisconnectReason::Reset,')]),
     dict(id='ap-add-wrapper-swapped-own', unit=U, what='wrapper passes the remote id as own id', expect=['ActivePeers::add::delegates_mixed'],
          edits=[(CM, 'self.inner_mut().add(own_peer_id, new_connection)', 'self.inner_mut().add(&new_connection.peer_id(), new_connection)')]),
+    dict(id='ap-peers-empty-listing', unit=U, what='the connected-peer listing is always empty', expect=['ActivePeersInner::peers::listing_is_the_connected_set'],
+         edits=[(CM, 'self.connections.keys().copied().collect()', 'let _keys: Vec<PeerId> = self.connections.keys().copied().collect();\n        Vec::new()')]),
+    dict(id='ap-peers-two-lock-acquisitions', unit=U, what='peers() takes the lock twice', expect=['ActivePeers::peers::one_critical_section'],
+         edits=[(CM, """    pub fn peers(&self) -> Vec<PeerId> {
+        self.inner().peers()""", """    pub fn peers(&self) -> Vec<PeerId> {
+        let _n = self.inner().len();
+        self.inner().peers()""")]),
 ]
